@@ -36,6 +36,10 @@ def run(ctx):
     ctx.guard(rule_d, ctx, ix)
     ctx.guard(rule_e, ctx, ix)
     ctx.guard(rule_f, ctx, ix)
+    # undo must remove exactly the groups the command created (membership in the snapshot)
+    from ..report import BorrowedCtx
+    from .C13 import rule_d as _undo_groups
+    ctx.guard(_undo_groups, BorrowedCtx(ctx, {'C13.d': 'C06.g'}), ix, ('groups',))
 
 
 def rule_a(ctx, ix):
